@@ -165,6 +165,27 @@ def uf_shape_value(st, base, args, shape):
                         for c, f in cfns.items():
                             V.cur().assume(f(*args, zi + 1) == f(*args, zi) + V._z(v[c]))
                         return v
+            elif isinstance(shp.elem, S.Union):
+                # variant records (layout segments (cols, offs) | (cols, offs, end) | (cols, offs, bytes)): component
+                # prefix sums for the plain-int components EVERY alternative has at the same position -- the same model
+                # field seqs.fresh_seq gives a fresh list of such elements (summand: the non-forking selection
+                # seqs.elt_comp over the alternatives), defining equation instantiated at every index that is read
+                from .seqs import elt_comp
+
+                ualts = shp.elem.cases()
+                ucomps = []
+                if ualts and all(isinstance(a_, S.Tup) for a_ in ualts):
+                    ucomps = [c for c in range(min(len(a_.items) for a_ in ualts)) if all(isinstance(a_.items[c], S._Int) for a_ in ualts)]
+                cfns = {c: z3.Function(f"{base}{path}#psum{c}", *dom_of(args), z3.IntSort(), z3.IntSort()) for c in ucomps}
+                if cfns:
+                    var_get = getter
+
+                    def getter(i, cfns=cfns, var_get=var_get, args=args):  # noqa: F811
+                        v = var_get(i)
+                        zi = V._z(i)
+                        for c, f in cfns.items():
+                            V.cur().assume(f(*args, zi + 1) == f(*args, zi) + V._z(elt_comp(v, c)))
+                        return v
 
             seq = SSeq(mk_int(n), getter, shp.elem, psum, f"{base}{path}")
             for c, f in cfns.items():
